@@ -6,9 +6,11 @@
 (* An observed layout (event):                                                                                  *)
 (*   [text  : input as code points,   width, indent, align \in {"L","R","C","J"}, ovf : Text.Overflows,          *)
 (*    u     : size/unitsPerEm rounded up (glue is stretched in whole font units),                              *)
-(*    lines : << [y, asc, desc, adj, spans : << [x, w, asc, desc, t : code points, g : glyph texts] >>] >>,        *)
+(*    lines : << [y, asc, desc, adj, spans : << [x, w, asc, desc, lv : bidi level, t : code points, g : glyph texts] >>] >>,        *)
 (*    bounds : <<x0, y0, x1, y1>> (y upwards as Text.Bounds reports it), heights : <<top, bottom>>,              *)
-(*    kp : [ok, items, brk]  the item list / breakpoints of the text (library's own builder and Linebreak)]      *)
+(*    kp : [ok, items, brk]  the item list / breakpoints of the text (library's own builder and Linebreak),       *)
+(*    bidi : TRUE for mixed-direction text: only the direction-independent clauses are evaluated (lines stacked, *)
+(*           spans pairwise disjoint, inside the box unless Overflows, Bounds / Heights enclose)]                *)
 (* y, asc, desc are measured downwards from the top of the box: a span covers [y - asc, y + desc].              *)
 (* adj: what was added to the natural advances of the glue (space) glyphs of the line; 0 = left unstretched.    *)
 (*                                                                                                              *)
@@ -18,7 +20,7 @@
 (* the post-conditions, and simple corruptions of them must be rejected (the conditions are not vacuous).       *)
 EXTENDS KnuthPlass
 
-CONSTANTS LMode,     \* "exh" | "rand" | "none" : token list generation
+CONSTANTS LMode,     \* "exh" | "rand" | "bidi" | "para" | "none" : token list generation
           NTok,      \* token list length
           NLRand,    \* size of the random subset
           MaxWSel,   \* width selectors 1..MaxWSel (the driver maps them to real widths, see notes/C16.md)
@@ -67,8 +69,9 @@ GapsOf(R, T, p, j) ==
 
 \* ---- the post-conditions ---------------------------------------------------------------------------------------
 Right(sp) == sp.x + sp.w
-LeftOf(ln)  == ln.spans[1].x
-RightOf(ln) == Right(ln.spans[Len(ln.spans)])
+\* extent of a line (spans are listed in logical order; in right-to-left runs that is not the order of their x)
+LeftOf(ln)  == MinOf({ln.spans[i].x : i \in 1..Len(ln.spans)})
+RightOf(ln) == LET R == {Right(ln.spans[i]) : i \in 1..Len(ln.spans)} IN CHOOSE v \in R : \A w \in R : w <= v
 NGlue(ln) == LET t == LineText(ln) IN Count(t, 1, Len(t), SP) + Count(t, 1, Len(t), IDSP)
 \* glue is stretched in whole font units: (glue glyphs + 1) * size/unitsPerEm, plus the quantisation of the log
 LTol(e, ln) == (NGlue(ln) + 1) * e.u + 2
@@ -102,8 +105,9 @@ LFails(e) ==
                         (G[j].len = 0 /\ G[j].from <= Len(R) => g[Len(t)] = HY)
       stacked == \A j \in 1..k-1 : /\ e.lines[j+1].y > e.lines[j].y
                                    /\ e.lines[j+1].y - e.lines[j].y >= e.lines[j].desc + e.lines[j+1].asc - 2
-      disjoint == \A j \in ne : \A i \in 1..Len(e.lines[j].spans)-1 :
-                     Right(e.lines[j].spans[i]) <= e.lines[j].spans[i+1].x + 1
+      disjoint == \A j \in ne : LET sp == e.lines[j].spans IN
+                     IF e.bidi THEN \A i \in 1..Len(sp), m \in 1..Len(sp) : i < m => (Right(sp[i]) <= sp[m].x + 1 \/ Right(sp[m]) <= sp[i].x + 1)
+                     ELSE \A i \in 1..Len(sp)-1 : Right(sp[i]) <= sp[i+1].x + 1      \* left-to-right: logical order is x order
       nonneg == \A j \in ne : \A i \in 1..Len(e.lines[j].spans) : e.lines[j].spans[i].w >= 0
       inside == e.ovf \/ \A j \in ne : /\ LeftOf(e.lines[j]) >= 0 - 2
                                        /\ RightOf(e.lines[j]) <= e.width + LTol(e, e.lines[j])
@@ -130,17 +134,19 @@ LFails(e) ==
                    /\ e.bounds[2] <= 0 - y - s.desc + 1 /\ 0 - y + s.asc <= e.bounds[4] + 1
       heights == \A j \in ne : \A i \in 1..Len(e.lines[j].spans) : LET s == e.lines[j].spans[i] y == e.lines[j].y IN
                    /\ 0 - e.heights[1] <= y - s.asc + 1 /\ y + s.desc <= e.heights[2] + 1
-  IN (IF once THEN {} ELSE IF DecompLoose(R, T) THEN {"newline-no-new-line"} ELSE {"content"})
-     \cup (IF shy /\ shyend THEN {} ELSE {"soft-hyphen"})
-     \cup (IF stacked THEN {} ELSE {"stacking"})
-     \cup (IF disjoint /\ nonneg THEN {} ELSE {"span-overlap"})
-     \cup (IF inside THEN {} ELSE {"outside-box"})
-     \cup (IF left THEN {} ELSE {"align-left"})
-     \cup (IF right THEN {} ELSE {"align-right"})
-     \cup (IF centre THEN {} ELSE {"align-centre"})
-     \cup (IF juststart /\ just THEN {} ELSE {"align-justify"})
-     \cup (IF bounds THEN {} ELSE {"bounds"})
-     \cup (IF heights THEN {} ELSE {"heights"})
+      general == (IF stacked THEN {} ELSE {"stacking"})
+                 \cup (IF disjoint /\ nonneg THEN {} ELSE {"span-overlap"})
+                 \cup (IF inside THEN {} ELSE {"outside-box"})
+                 \cup (IF bounds THEN {} ELSE {"bounds"})
+                 \cup (IF heights THEN {} ELSE {"heights"})
+  IN IF e.bidi THEN general
+     ELSE general
+          \cup (IF once THEN {} ELSE IF DecompLoose(R, T) THEN {"newline-no-new-line"} ELSE {"content"})
+          \cup (IF shy /\ shyend THEN {} ELSE {"soft-hyphen"})
+          \cup (IF left THEN {} ELSE {"align-left"})
+          \cup (IF right THEN {} ELSE {"align-right"})
+          \cup (IF centre THEN {} ELSE {"align-centre"})
+          \cup (IF juststart /\ just THEN {} ELSE {"align-justify"})
 
 \* feature (DESIGN.md appendix B): some line break falls on two or more consecutive breakable spaces
 BreakAtRepeatedSpace(e) ==
@@ -152,18 +158,33 @@ SpaceBeforeNewline(e) ==
   LET R == e.text  T == [j \in 1..Len(e.lines) |-> LineText(e.lines[j])]
       G == GapsOf(R, T, 1, 1) IN
   \E j \in 1..Len(G) : \E i \in G[j].from..(G[j].from + G[j].len - 2) : R[i] \in GlueCh /\ R[i+1] = NL
-LExplain(e) == LET dec == Decomp(e.text, [j \in 1..Len(e.lines) |-> LineText(e.lines[j])], 1, 1) IN
+\* feature (mixed direction): some line starts, in logical order, with a span of embedding level >= 2 (a left-to-right
+\* word at the start of a line of a right-to-left paragraph)
+LineStartsEmbedded(e) == e.bidi /\ \E j \in 1..Len(e.lines) : Len(e.lines[j].spans) > 0 /\ e.lines[j].spans[1].lv >= 2
+LExplain(e) == LET dec == ~e.bidi /\ Decomp(e.text, [j \in 1..Len(e.lines) |-> LineText(e.lines[j])], 1, 1) IN
                [k |-> e.k, fails |-> LFails(e),
                 feat |-> (IF dec /\ BreakAtRepeatedSpace(e) THEN {"repspace"} ELSE {})
-                         \cup (IF dec /\ SpaceBeforeNewline(e) THEN {"spacenl"} ELSE {})]
+                         \cup (IF dec /\ SpaceBeforeNewline(e) THEN {"spacenl"} ELSE {})
+                         \cup (IF LineStartsEmbedded(e) THEN {"startsembedded"} ELSE {})]
 
 \* ---- scenario generation -------------------------------------------------------------------------------------------
 \* soft hyphens only occur where they are meant to be used: inside words
-Toks == {"on", "women", "wo_men", "new2", "ne_w2", "sp", "nbsp", "idsp", "hy", "nl"}
-TokLists == IF LMode = "exh" THEN [1..NTok -> Toks] ELSE IF LMode = "rand" THEN RandomSubset(NLRand, [1..NTok -> Toks]) ELSE {}
+Words == {"on", "women", "wo_men", "new2", "ne_w2"}
+Toks == Words \cup {"sp", "nbsp", "idsp", "hy", "nl"}
+\* "bidi": a right-to-left paragraph (starts with a Hebrew word) that contains left-to-right words in both faces
+BidiToks == {"heb", "sp", "on", "new2"}
+BidiOK(f) == f[1] = "heb" /\ (\E i \in DOMAIN f : f[i] = "on") /\ (\E i \in DOMAIN f : f[i] = "new2")
+\* "para": NTok words separated by single spaces, justified, absolute narrow widths (selectors 7..10 = 20..23 mm)
+Interleave(f) == [i \in 1..(2 * NTok - 1) |-> IF i % 2 = 1 THEN f[(i + 1) \div 2] ELSE "sp"]
+TokLists == IF LMode = "exh" THEN [1..NTok -> Toks]
+            ELSE IF LMode = "rand" THEN RandomSubset(NLRand, [1..NTok -> Toks])
+            ELSE IF LMode = "bidi" THEN {f \in (IF NLRand = 0 THEN [1..NTok -> BidiToks] ELSE RandomSubset(NLRand, [1..NTok -> BidiToks])) : BidiOK(f)}
+            ELSE IF LMode = "para" THEN {Interleave(f) : f \in RandomSubset(NLRand, [1..NTok -> Words])}
+            ELSE {}
 Aligns == {"L", "R", "C", "J"}
 LInit == /\ items = <<>> /\ width = 0 /\ ph = 1 /\ lt = <<>>
-         /\ sc \in [toks : TokLists, wsel : 1..MaxWSel, align : Aligns, indent : Indents]
+         /\ sc \in IF LMode = "para" THEN [toks : TokLists, wsel : 7..10, align : {"J"}, indent : {0}]
+                   ELSE [toks : TokLists, wsel : 1..MaxWSel, align : Aligns, indent : Indents]
 LNext == UNCHANGED lvars
 LSpec == LInit /\ [][LNext]_lvars
 EmitScenario == PrintT("@@" \o ToJson(sc))
@@ -218,7 +239,7 @@ ModelEvent(s) ==
   IN [k |-> 0, text |-> R, width |-> w, indent |-> ind, align |-> s.align, ovf |-> over, u |-> 0, lines |-> ls,
       bounds |-> <<MinOf(xs), 0 - 3 * Len(ls) - 1, CHOOSE v \in rs : \A z \in rs : z <= v, 0>>,
       heights |-> <<0, 3 * Len(ls) + 1>>,
-      kp |-> [ok |-> FALSE, brk |-> <<>>]]
+      kp |-> [ok |-> FALSE, brk |-> <<>>], bidi |-> FALSE]
 \* the model's layouts (left and right aligned; the model does not centre or stretch) satisfy every post-condition
 ModelOK == sc.align \in {"L", "R"} => LFails(ModelEvent(sc)) = {}
 \* and corrupted layouts are rejected: a character lost, a line moved up, a span shifted out of place
